@@ -613,3 +613,72 @@ func ZZ_C44_StaticType_Derived() {
 	}
 	zzAssert("equal-type", d.Equal(t) && t.Equal(d))
 }
+
+//verif:harness property=C44 mode=bv unwind=80 steps=40000000
+func ZZ_C44_Storable_Some() {
+	x := zzNondetInt16()
+	nested := zzNondetBool()
+	var s atree.Storable = SomeStorable{Storable: Int16Value(x)}
+	if nested {
+		s = SomeStorable{Storable: s}
+	}
+	d, ok := zzStoreRoundTrip(s)
+	if !ok {
+		return
+	}
+	u, same := d.(SomeStorable)
+	zzAssert("same-kind", same)
+	if !same {
+		return
+	}
+	inner := u.Storable
+	if nested {
+		u2, same2 := inner.(SomeStorable)
+		zzAssert("same-kind", same2)
+		if !same2 {
+			return
+		}
+		inner = u2.Storable
+	}
+	iv, isI := inner.(Int16Value)
+	zzAssert("same-value", isI && int16(iv) == x)
+}
+
+//verif:harness property=C44 mode=bv unwind=80 steps=40000000
+func ZZ_C44_Storable_TypeValue() {
+	p := PrimitiveStaticType(zzNondetUint8())
+	zzAssume(p != PrimitiveStaticTypeCapability)
+	var t StaticType = p
+	if zzNondetBool() {
+		t = NewOptionalStaticType(nil, p)
+	}
+	v := NewUnmeteredTypeValue(t)
+	d, ok := zzStoreRoundTrip(v)
+	if !ok {
+		return
+	}
+	u, same := d.(TypeValue)
+	zzAssert("same-kind", same)
+	if same {
+		zzAssert("same-value", u.Type != nil && u.Type.Equal(t))
+	}
+}
+
+//verif:harness property=C44 mode=bv unwind=80 steps=40000000
+func ZZ_C44_Storable_Capability() {
+	id := zzNondetUint64()
+	addr := NewUnmeteredAddressValueFromBytes(zzNondetBytes(8))
+	p := PrimitiveStaticType(zzNondetUint8())
+	zzAssume(p != PrimitiveStaticTypeCapability)
+	bt := NewReferenceStaticType(nil, UnauthorizedAccess, p)
+	v := NewUnmeteredCapabilityValue(UInt64Value(id), addr, bt)
+	d, ok := zzStoreRoundTrip(v)
+	if !ok {
+		return
+	}
+	u, same := d.(*IDCapabilityValue)
+	zzAssert("same-kind", same)
+	if same {
+		zzAssert("same-value", uint64(u.ID) == id && u.Address() == addr && u.BorrowType != nil && u.BorrowType.Equal(bt))
+	}
+}
